@@ -1,0 +1,26 @@
+//! verification hook: snapshot of an `InputQueue` (child module, read-only)
+use super::{InputQueue, INPUT_QUEUE_LENGTH};
+use crate::verif::{input_bytes, QueueSnap};
+use crate::Config;
+
+impl<T: Config> InputQueue<T> {
+    pub(crate) fn verif_snap(&self) -> QueueSnap {
+        let newest = self.inputs[(self.head + INPUT_QUEUE_LENGTH - 1) % INPUT_QUEUE_LENGTH];
+        QueueSnap {
+            head: self.head,
+            tail: self.tail,
+            length: self.length,
+            first_frame: self.first_frame,
+            last_added: self.last_added_frame,
+            last_user: self.last_user_frame,
+            first_incorrect: self.first_incorrect_frame,
+            last_requested: self.last_requested_frame,
+            delay: self.frame_delay,
+            pred_frame: self.prediction.frame,
+            pred_input: input_bytes(&self.prediction.input),
+            tail_frame: self.inputs[self.tail].frame,
+            newest_frame: newest.frame,
+            newest_input: input_bytes(&newest.input),
+        }
+    }
+}
